@@ -20,7 +20,9 @@ from translate import sgtables
 from vlib import core
 from vlib import c02_orbit as co
 
-TARGETS = ["Props/C02.vo"]
+TARGETS = ["Props/C02.vo", "Props/C02_Uij.vo"]
+THEOREMS_IN = {"Props/C02", "Props/C02_Uij"}
+UIJ_MAX_POSITIONS = 48   # tensors are compared on sites with at most this many equivalent positions
 NSHARDS = 16
 MAX_REPORT = 3          # violations reported per (clause, entry point)
 
@@ -78,7 +80,29 @@ def run_case(sg, ops, case, want_generator=True):
     else:
         res["not_judged"] += 1
         res["why_not"] = exp["why_not"]
-    if want_generator and exp["judged"]:
+    # GeneratorSite is constructed once per case (with a tensor) and kept raw for the model correspondence
+    gs = None
+    if want_generator:
+        U0 = case.get("U")
+        try:
+            import numpy
+            kw = {"sgoffset": off}
+            if U0:
+                kw["Uij"] = numpy.array([[U0[0], U0[3], U0[4]], [U0[3], U0[1], U0[5]], [U0[4], U0[5], U0[2]]], dtype=float)
+            gs = GeneratorSite(sg, x, **kw)
+            gops = _oplists(sg, gs.symops)
+            g = {"xyz": [float(c) for c in gs.xyz], "eq": [[float(c) for c in p] for p in gs.eqxyz], "ops": gops,
+                 "mult": int(gs.multiplicity), "inv": _oplists(sg, [gs.invariants])[0]}
+            if U0 and len(gs.eqxyz) <= UIJ_MAX_POSITIONS:
+                six = lambda M: [float(M[0][0]), float(M[1][1]), float(M[2][2]), float(M[0][1]), float(M[0][2]), float(M[1][2])]  # noqa
+                g["U"] = six(gs.Uij)
+                g["eqU"] = [six(M) for M in gs.eqUij]
+                g["sym"] = bool(all(abs(M[i][j] - M[j][i]) <= 1e-12 for M in list(gs.eqUij) + [gs.Uij] for i in range(3) for j in range(3)))
+            res["gimpl"] = g
+        except Exception as e:  # noqa
+            res["gimpl"] = None
+            res["bad"].append(("exception", "GeneratorSite", "GeneratorSite raised %s: %s" % (type(e).__name__, e)))
+    if gs is not None and exp["judged"]:
         snapped = co.snapped_site(ops, case)
         xs, offs, _ = co.case_fracs(case)
         small = [c for c in snapped if c != 0 and abs(c) < co.EPS_EQ + co.MARGIN]
@@ -87,54 +111,52 @@ def run_case(sg, ops, case, want_generator=True):
         if small or not gexp["judged"]:
             res["not_judged"] += 1
         else:
-            try:
-                gs = GeneratorSite(sg, x, sgoffset=off)
-                gops = _oplists(sg, gs.symops)
-                res["judged"] += 1
-                moved = max(abs(float(a) - float(b)) for a, b in zip(gs.xyz, xs))
-                if snapped != xs and moved <= co.TOL and len(gexp["clusters"]) == 1:
-                    # the snap step is skipped for sites of multiplicity 1 (`if mult > 1`)
-                    res["bad"].append(("no-snap-multiplicity-1", "GeneratorSite",
-                                       "site within %.1e of the special position %r of multiplicity 1 is left at %r (xyz not adjusted)" %
-                                       (max(abs(float(a - b)) for a, b in zip(xs, snapped)), [float(c) for c in snapped], list(map(float, gs.xyz)))))
-                    return res
-                for clause, msg in co.judge(gexp, [list(p) for p in gs.eqxyz], gops, gs.multiplicity):
-                    res["bad"].append((_one_clause(sg, gs.xyz, off, clause), "GeneratorSite", msg))
-                inv = sorted(_oplists(sg, [gs.invariants])[0])
-                if inv != sorted(gexp["stab"]):
-                    res["bad"].append(("invariants", "GeneratorSite", "invariants %r, exact site symmetry %r" % (inv[:16], sorted(gexp["stab"])[:16])))
-                if max(abs(float(a) - float(b)) for a, b in zip(gs.xyz, snapped)) > co.TOL:
-                    res["bad"].append(("snap", "GeneratorSite", "xyz %r, special position nearest the input %r" % (list(gs.xyz), [float(c) for c in snapped])))
-                res["gen"] = {"mult": int(gs.multiplicity), "xyz": [float(c) for c in gs.xyz]}
-                res["gexp"] = gexp
-            except Exception as e:  # noqa
-                res["bad"].append(("exception", "GeneratorSite", "GeneratorSite raised %s: %s" % (type(e).__name__, e)))
+            res["judged"] += 1
+            for clause, msg in co.judge(gexp, res["gimpl"]["eq"], res["gimpl"]["ops"], gs.multiplicity):
+                res["bad"].append((_one_clause(sg, gs.xyz, off, clause), "GeneratorSite", msg))
+            inv = sorted(res["gimpl"]["inv"])
+            if inv != sorted(gexp["stab"]):
+                res["bad"].append(("invariants", "GeneratorSite", "invariants %r, exact site symmetry %r" % (inv[:16], sorted(gexp["stab"])[:16])))
+            if max(abs(float(a) - float(b)) for a, b in zip(gs.xyz, snapped)) > co.TOL:
+                res["bad"].append(("snap", "GeneratorSite", "xyz %r, special position nearest the input %r" % (list(gs.xyz), [float(c) for c in snapped])))
+            res["gexp"] = gexp
     # keep the result small for pickling
     return res
 
 
 def run_asym_unit(sg, ops, results):
-    """ExpandAsymmetricUnit on the sites of this setting that GeneratorSite was judged on (grouped by origin offset)."""
+    """ExpandAsymmetricUnit on sites of this setting (grouped by origin offset and grid, at most 4 per call).
+    Returns (finder problems, number of sites, raw outputs per call for the model correspondence)."""
     from diffpy.structure.symmetryutilities import ExpandAsymmetricUnit
-    bad, n = [], 0
+    bad, n, raw = [], 0, []
     groups = {}
-    for r in results:
-        if "gexp" in r:
-            groups.setdefault(tuple(r["case"]["off"]) + (r["case"]["D"],), []).append(r)
-    for key, rs in groups.items():
-        rs = rs[:4]
+    for k, r in enumerate(results):
+        if r.get("gimpl"):
+            groups.setdefault(tuple(r["case"]["off"]) + (r["case"]["D"],), []).append(k)
+    for key, ks in groups.items():
+        # prefer the sites the finder can judge, then the cheapest ones
+        ks = sorted(ks, key=lambda k: ("gexp" not in results[k], results[k]["nclusters"]))[:4]
+        rs = [results[k] for k in ks]
         xs = [_floats(r["case"])[0] for r in rs]
         off = _floats(rs[0]["case"])[1]
         try:
-            eau = ExpandAsymmetricUnit(sg, xs, sgoffset=off)
+            import numpy
+            Us = [numpy.array([[u[0], u[3], u[4]], [u[3], u[1], u[5]], [u[4], u[5], u[2]]], dtype=float)
+                  for u in (r["case"].get("U") or [0.0] * 6 for r in rs)]
+            eau = ExpandAsymmetricUnit(sg, xs, coreUijs=Us, sgoffset=off)
         except Exception as e:  # noqa
             bad.append((rs[0]["case"], ("exception", "ExpandAsymmetricUnit", "raised %s: %s" % (type(e).__name__, e))))
             continue
+        six = lambda M: [float(M[0][0]), float(M[1][1]), float(M[2][2]), float(M[0][1]), float(M[0][2]), float(M[1][2])]  # noqa
+        raw.append({"members": ks, "mult": [int(m) for m in eau.multiplicity],
+                    "pos": [[[float(c) for c in p] for p in ep] for ep in eau.expandedpos],
+                    "U": [[six(M) for M in eu] if len(eu) <= UIJ_MAX_POSITIONS else None for eu in eau.expandedUijs]})
         for r, m, ep in zip(rs, eau.multiplicity, eau.expandedpos):
             n += 1
-            for clause, msg in co.judge(r["gexp"], [list(p) for p in ep], None, m):
-                bad.append((r["case"], (_one_clause(sg, r["gen"]["xyz"], off, clause), "ExpandAsymmetricUnit", msg)))
-    return bad, n
+            if "gexp" in r:
+                for clause, msg in co.judge(r["gexp"], [list(p) for p in ep], None, m):
+                    bad.append((r["case"], (_one_clause(sg, r["gimpl"]["xyz"], off, clause), "ExpandAsymmetricUnit", msg)))
+    return bad, n, raw
 
 
 def build_cases(si, ops, rng, tier):
@@ -154,7 +176,7 @@ def build_cases(si, ops, rng, tier):
         gen_variants = [("exact", "shift"), ("offset", "offset+shift"), ("exact",)]
         special_variants = lambda j: (["exact", "shift", "offset", "offset+shift", "inside", "inside+offset", "outside"] if j == 0  # noqa
                                       else [rng.choice(("exact", "shift", "offset", "offset+shift")), rng.choice(("inside", "inside+offset")), "outside"])
-        nsites = 2 if len(ops) > 48 else 3
+        nsites = 1 if len(ops) >= 96 else (2 if len(ops) > 48 else 3)
     for vs in gen_variants:
         cases += co.cases_for_site(si, rng, co.rand_general(rng), None, vs)
     more = [strata]
@@ -173,13 +195,15 @@ def _worker(arg):
     from diffpy.structure.spacegroups import SpaceGroupList
     sg = SpaceGroupList[si]
     rng = random.Random(seed * 1000003 + si)
-    out = {"si": si, "results": [], "eau_bad": [], "eau_n": 0, "error": None, "nstrata": 0}
+    out = {"si": si, "results": [], "eau_bad": [], "eau_n": 0, "eau_raw": [], "error": None, "nstrata": 0}
     try:
         ops = co.exact_ops(sg)
         cases, out["nstrata"] = build_cases(si, ops, rng, tier)
         for c in cases:
+            # a symmetric tensor with 3-digit decimal entries (made positive definite by the diagonal)
+            c["U"] = [round(0.02 + rng.randrange(1, 60) / 1000.0, 3) for _ in range(3)] + [round(rng.randrange(-9, 10) / 1000.0, 3) for _ in range(3)]
             out["results"].append(run_case(sg, ops, c))
-        out["eau_bad"], out["eau_n"] = run_asym_unit(sg, ops, out["results"])
+        out["eau_bad"], out["eau_n"], out["eau_raw"] = run_asym_unit(sg, ops, out["results"])
         for r in out["results"]:
             r.pop("gexp", None)
     except Exception as e:  # noqa
@@ -193,9 +217,17 @@ def _worker(arg):
 # model side: evaluate the Coq definitions on the same exact inputs
 # ------------------------------------------------------------------------------------------------
 HEADER = """From Coq Require Import ZArith List.
-From DS Require Import Base.ZMat Base.SGDefs Model.GroupCheck Model.C02_Orbit Model.C02_Eps Gen.SGTables.
+From DS Require Import Base.ZMat Base.SGDefs Model.GroupCheck Model.C02_Orbit Model.C02_Eps Model.C02_Gen Gen.SGTables.
 Import ListNotations. Open Scope Z_scope.
 Definition G (i : nat) := nth i (map sg_ops all_settings) [].
+"""
+HEADER_U = """From Coq Require Import ZArith QArith List.
+From DS Require Import Base.ZMat Base.SGDefs Model.GroupCheck Model.C02_Orbit Model.C02_Eps Model.C02_Gen Model.C02_Uij
+  Model.C05_QBase Model.C06_UCert Gen.SGTables.
+Import ListNotations. Open Scope Z_scope.
+Definition G (i : nat) := nth i (map sg_ops all_settings) [].
+Definition U_of (D : Z) (Gs : list symop) (off x : v3) (U : s6) : list Z :=
+  match generator_site D Gs off x with Some g => ushow (eq_uijs (gs_symops g) U) | None => [-9] end.
 """
 
 
@@ -203,14 +235,42 @@ def zl(v):
     return "(%d)" % v if v < 0 else "%d" % v
 
 
-def coq_case(cid, c):
-    args = "%s (G %d) (V3 %s) (V3 %s)" % (zl(c["D"]), c["si"], " ".join(zl(v) for v in c["off"]), " ".join(zl(v) for v in c["x"]))
-    return ("Eval vm_compute in (777, %d, showz (G %d) (expand_eps %s), showz (G %d) (expand_exact %s)).\n"
-            % (cid, c["si"], args, c["si"], args))
+def v3l(v):
+    return "(V3 %s)" % " ".join(zl(c) for c in v)
 
 
-def parse_showz(txt):
-    vals = [int(v) for v in re.findall(r"-?\d+", txt)]
+def coq_case(cid, c, flag):
+    """One evaluation: the first expansion is shared between expand_eps and the GeneratorSite model."""
+    si = c["si"]
+    hyp = ("(if snap_hyps_b %s G0 %s %s %s then 1 else 0)" % (zl(c["D"]), v3l(c["off"]), v3l(c["x"]), v3l(c["ref"]))) if flag else "(-1)"
+    return ("Eval vm_compute in (let G0 := G %d in let r := expand_eps %s G0 %s %s in (777, %d, showz G0 r, "
+            "showz G0 (expand_exact %s G0 %s %s), gshow G0 (generator_site_from %s G0 %s %s r), %s)).\n"
+            % (si, zl(c["D"]), v3l(c["off"]), v3l(c["x"]), cid, zl(c["D"]), v3l(c["off"]), v3l(c["x"]),
+               zl(c["D"]), v3l(c["off"]), v3l(c["x"]), hyp))
+
+
+def coq_group(gid, si, D, off, xs):
+    return ("Eval vm_compute in (778, %d, ashow (expand_asym %s (G %d) %s [%s])).\n"
+            % (gid, zl(D), si, v3l(off), "; ".join(v3l(x) for x in xs)))
+
+
+def qlit(f):
+    fr = F(float(f))
+    return "(%s # %d)%%Q" % (zl(fr.numerator), fr.denominator)
+
+
+def coq_ucase(cid, c, U):
+    return ("Eval vm_compute in (779, %d, U_of %s (G %d) %s %s (S6 %s)).\n"
+            % (cid, zl(c["D"]), c["si"], v3l(c["off"]), v3l(c["x"]), " ".join(qlit(u) for u in U)))
+
+
+def ints(txt):
+    return [int(v) for v in re.findall(r"-?\d+", txt)]
+
+
+def parse_showz(vals):
+    if isinstance(vals, str):
+        vals = ints(vals)
     pos, ops, mult = [], [], None
     i = 0
     while i < len(vals):
@@ -229,30 +289,84 @@ def parse_showz(txt):
     return pos, ops, mult
 
 
-def run_model(ctx, cases, nops):
-    """cases: {cid: case}.  Returns {cid: ((pos, ops, mult) of expand_eps, same of expand_exact)}."""
-    ids = sorted(cases, key=lambda k: -nops[cases[k]["si"]] ** 2)
-    shards = [[] for _ in range(NSHARDS)]
-    load = [0] * NSHARDS
-    for k in ids:
+def parse_gshow(txt):
+    """None (ValueError in the model) or dict(D, xyz, inv, pos, ops, mult)."""
+    vals = ints(txt)
+    if vals[:1] == [-9]:
+        return None
+    if vals[0] != -3 or vals[5] != -4:
+        raise ValueError("unexpected generator output")
+    j = 6
+    while j < len(vals) and vals[j] >= 0:
+        j += 1
+    pos, ops, mult = parse_showz(vals[j:])
+    return {"D": vals[1], "xyz": vals[2:5], "inv": vals[6:j], "pos": pos, "ops": ops, "mult": mult}
+
+
+def parse_ashow(txt):
+    vals = ints(txt)
+    if vals[:1] == [-9]:
+        return None
+    out, i = [], 0
+    while i < len(vals):
+        if vals[i] != -5:
+            raise ValueError("unexpected asymmetric-unit output")
+        m, Dn = vals[i + 1], vals[i + 2]
+        j = i + 3
+        while j < len(vals) and vals[j] != -5:
+            j += 1
+        cs = vals[i + 3:j]
+        out.append({"mult": m, "D": Dn, "pos": [cs[k:k + 3] for k in range(0, len(cs), 3)]})
+        i = j
+    return out
+
+
+def _shards(items, cost, n):
+    items = sorted(items, key=lambda k: -cost(k))
+    shards, load = [[] for _ in range(n)], [0] * n
+    for k in items:
         j = load.index(min(load))
         shards[j].append(k)
-        load[j] += nops[cases[k]["si"]] ** 2 + 50
-    texts = [HEADER + "".join(coq_case(k, cases[k]) for k in sh) for sh in shards if sh]
-    out, errors = {}, []
+        load[j] += cost(k) + 50
+    return [sh for sh in shards if sh]
 
-    def one(i_text):
-        i, text = i_text
-        return ctx.coq_eval("c02_cases_%d" % i, text, timeout=1500)
+
+def run_model(ctx, cases, nops, flags=(), groups=None, ucases=None):
+    """cases: {cid: case}; flags: cids for which the hypotheses of the snap theorem are evaluated;
+    groups: {gid: (si, D, off, [x...])} for expand_asym; ucases: {cid: adjusted tensor (6 floats)}.
+    Returns ({cid: (eps, exact, generator, flag)}, {gid: asym}, {cid: tensors}, errors)."""
+    groups = groups or {}
+    ucases = ucases or {}
+    flags = set(flags)
+    texts = []
+    for sh in _shards(list(cases), lambda k: nops[cases[k]["si"]] ** 2, NSHARDS):
+        texts.append(("m", HEADER + "".join(coq_case(k, cases[k], k in flags) for k in sh)))
+    if groups:
+        for sh in _shards(list(groups), lambda g: sum(nops[groups[g][0]] for _ in groups[g][3]), 8):
+            texts.append(("g", HEADER + "".join(coq_group(g, *groups[g]) for g in sh)))
+    if ucases:
+        for sh in _shards(list(ucases), lambda k: nops[cases[k]["si"]] * 10, 8):
+            texts.append(("u", HEADER_U + "".join(coq_ucase(k, cases[k], ucases[k]) for k in sh)))
+    out, gout, uout, errors = {}, {}, {}, {"m": [], "g": [], "u": []}
+
+    def one(i_kt):
+        i, (kind, text) = i_kt
+        rc, txt = ctx.coq_eval("c02_cases_%s%d" % (kind, i), text, timeout=1500)
+        return kind, rc, txt
 
     with ThreadPoolExecutor(max_workers=NSHARDS) as ex:
-        for rc, txt in ex.map(one, enumerate(texts)):
+        for kind, rc, txt in ex.map(one, enumerate(texts)):
             flat = " ".join(txt.split())
-            for m in re.finditer(r"\(777, (\d+), \[([^\]]*)\], \[([^\]]*)\]\)", flat):
-                out[int(m.group(1))] = (parse_showz(m.group(2)), parse_showz(m.group(3)))
+            for m in re.finditer(r"\(777, (\d+), \[([^\]]*)\], \[([^\]]*)\], \[([^\]]*)\], (-?\d+)\)", flat):
+                out[int(m.group(1))] = (parse_showz(m.group(2)), parse_showz(m.group(3)), parse_gshow(m.group(4)), int(m.group(5)))
+            for m in re.finditer(r"\(778, (\d+), \[([^\]]*)\]\)", flat):
+                gout[int(m.group(1))] = parse_ashow(m.group(2))
+            for m in re.finditer(r"\(779, (\d+), \[([^\]]*)\]\)", flat):
+                v = ints(m.group(2))
+                uout[int(m.group(1))] = None if v[:1] == [-9] else [[F(v[k + 2 * c], v[k + 2 * c + 1]) for c in range(6)] for k in range(0, len(v), 12)]
             if rc != 0:
-                errors.append(txt[-400:])
-    return out, errors
+                errors[kind].append(txt[-400:])
+    return out, gout, uout, errors
 
 
 def compare_model(case, impl, model):
@@ -272,6 +386,50 @@ def compare_model(case, impl, model):
     return ""
 
 
+def compare_generator(gimpl, gm):
+    """Model of GeneratorSite.__init__ vs the real object: xyz, eqxyz (in order), symops, multiplicity, invariants."""
+    if gm is None or gimpl is None:
+        return "" if (gm is None and gimpl is None) else "model %s, implementation %s" % ("raises" if gm is None else "returns", "raises" if gimpl is None else "returns")
+    Dn = gm["D"]
+    if max(abs(a - v / Dn) for a, v in zip(gimpl["xyz"], gm["xyz"])) > co.TOL:
+        return "xyz: model %r, implementation %r" % ([v / Dn for v in gm["xyz"]], gimpl["xyz"])
+    if gm["inv"] != gimpl["inv"]:
+        return "invariants: model %r, implementation %r" % (gm["inv"][:16], gimpl["inv"][:16])
+    return compare_model({"D": Dn}, {"pos": gimpl["eq"], "ops": gimpl["ops"], "mult": gimpl["mult"]}, (gm["pos"], gm["ops"], gm["mult"]))
+
+
+def second_stage_fragile(ops, case, gm):
+    """The model moved the site: is the re-expansion (or the zeroing below eps) within 1e-9 of a decision threshold?"""
+    if gm is None or gm["D"] == case["D"]:
+        return False
+    Dn = gm["D"]
+    eps = float(co.EPS_EQ)
+    if any(abs(abs(v / Dn) - eps) < 1e-9 for v in gm["xyz"]):
+        return True
+    k = Dn // case["D"]
+    c2 = {"si": case["si"], "D": Dn, "kind": "snapped", "x": gm["xyz"], "off": [v * k for v in case["off"]], "ref": gm["xyz"]}
+    return bool(co.analyse(ops, c2)["fragile"])
+
+
+def compare_asym_member(m, ep, gm):
+    if gm is None:
+        return "model raises, implementation returns"
+    return compare_model({"D": gm["D"]}, {"pos": ep, "ops": [], "mult": m}, (gm["pos"], [], gm["mult"]))
+
+
+def compare_tensors(g, mu):
+    """eqUij of the implementation vs conj R U (exact, U = the adjusted tensor the implementation reports)."""
+    if mu is None:
+        return "model raises"
+    if len(mu) != len(g["eqU"]):
+        return "%d tensors in the model, %d in the implementation" % (len(mu), len(g["eqU"]))
+    scale = max(1.0, max(abs(u) for u in g["U"]))
+    for j, (a, b) in enumerate(zip(mu, g["eqU"])):
+        if max(abs(float(p) - q) for p, q in zip(a, b)) > co.TOL * scale:
+            return "tensor %d: model %r, implementation %r" % (j, [float(p) for p in a], b)
+    return ""
+
+
 # ------------------------------------------------------------------------------------------------
 def report(ctx, seen, case, clause, api, msg, sgname):
     k = (clause, api)
@@ -285,7 +443,7 @@ def report(ctx, seen, case, clause, api, msg, sgname):
                   key="%s:%s:%s:si%d" % (clause, api, case["kind"], case["si"]))
 
 
-def process(ctx, settings_idx, do_model=True):
+def process(ctx, settings_idx, do_model=True, do_uij=True):
     from diffpy.structure.spacegroups import SpaceGroupList
     nops = {i: len(SpaceGroupList[i].symop_list) for i in range(len(SpaceGroupList))}
     order = sorted(settings_idx, key=lambda i: -nops[i])
@@ -298,9 +456,12 @@ def process(ctx, settings_idx, do_model=True):
     kinds, skipped, fragile = {}, {}, 0
     njudged = neau = nstrata = 0
     errors = []
+    eau_calls = []
     for o in outs:
         if o["error"]:
             errors.append("setting index %d: %s" % (o["si"], o["error"]))
+        for g in o.get("eau_raw", []):
+            eau_calls.append((o["si"], len(cases), g))
         nstrata += o["nstrata"]
         neau += o["eau_n"]
         name = SpaceGroupList[o["si"]].short_name
@@ -324,17 +485,44 @@ def process(ctx, settings_idx, do_model=True):
     ctx.count(n=neau)
     # model correspondence
     agree = disagree = skipped_fragile = sep_checked = 0
-    first_diff = ""
+    g_agree = g_disagree = g_skipped = g_moved = 0
+    a_agree = a_disagree = a_groups_eval = 0
+    u_agree = u_disagree = 0
+    hyp_yes = hyp_no = 0
+    first_diff = g_first = a_first = u_first = ""
     if do_model and cases:
         t0 = time.time()
-        model, merr = run_model(ctx, cases, nops)
-        ctx.log("Coq evaluation of expand_eps / expand_exact on %d cases: %.1fs" % (len(cases), time.time() - t0))
-        ctx.obligation("model:evaluated-all-cases", not merr and len(model) == len(cases),
-                       ("%d of %d evaluated; " % (len(model), len(cases))) + " | ".join(merr)[:500])
+        # hypotheses of the snap theorem: evaluated on inside cases of small groups (quadratic in the group order)
+        flags = [cid for cid, c in cases.items() if c["kind"] in ("inside", "inside+offset") and nops[c["si"]] <= 48 and not results[cid]["fragile"]]
+        flags = flags[::(3 if ctx.tier == "quick" else 2)]
+        # ExpandAsymmetricUnit calls that are cheap to evaluate in Coq as a whole
+        groups = {}
+        for gid, (si, base, g) in enumerate(eau_calls):
+            mem = [base + k for k in g["members"]]
+            if sum(nops[si] * max(1, results[c]["nclusters"]) for c in mem) <= 4000 and not any(results[c]["fragile"] for c in mem):
+                c0 = cases[mem[0]]
+                groups[gid] = (si, c0["D"], c0["off"], [cases[c]["x"] for c in mem])
+        groups = {g: groups[g] for g in list(groups)[::(5 if ctx.tier == "quick" else 4)]}
+        ucases = {cid: r["gimpl"]["U"] for cid, r in results.items()
+                  if r.get("gimpl") and "eqU" in r["gimpl"] and not r["fragile"] and nops[cases[cid]["si"]] * r["nclusters"] <= 2500}
+        ucases = {k: ucases[k] for k in list(ucases)[::(6 if ctx.tier == "quick" else 5)]}
+        if not do_uij:
+            ucases = {}
+        model, gmodel, umodel, merr = run_model(ctx, cases, nops, flags, groups, ucases)
+        ctx.log("Coq evaluation on %d cases (+%d asymmetric-unit calls, %d tensor cases): %.1fs" % (len(cases), len(groups), len(ucases), time.time() - t0))
+        ctx.obligation("model:evaluated-all-cases", not merr["m"] and len(model) == len(cases),
+                       ("%d of %d evaluated; " % (len(model), len(cases))) + " | ".join(merr["m"])[:500])
+        ctx.obligation("model:evaluated-asym-and-tensor-cases", not merr["g"] and not merr["u"] and len(gmodel) == len(groups) and len(umodel) == len(ucases),
+                       ("%d/%d calls, %d/%d tensor cases; " % (len(gmodel), len(groups), len(umodel), len(ucases))) + " | ".join(merr["g"] + merr["u"])[:500])
         sep_bad = ""
-        for cid, (meps, mexact) in model.items():
+        ops_cache = {}
+        for cid, (meps, mexact, mgen, flag) in model.items():
             r = results[cid]
             c = r["case"]
+            if flag == 1:
+                hyp_yes += 1
+            elif flag == 0:
+                hyp_no += 1
             if r["fragile"]:
                 skipped_fragile += 1
                 continue
@@ -343,7 +531,6 @@ def process(ctx, settings_idx, do_model=True):
                 disagree += 1
                 if not first_diff:
                     first_diff = "setting index %d, case %s: %s" % (c["si"], json.dumps(c), d)
-                # the finder has already judged this case; if it did not, say so in the log
                 ctx.log("model/implementation difference:", first_diff[:400] if disagree == 1 else "(%d)" % disagree)
             else:
                 agree += 1
@@ -353,8 +540,80 @@ def process(ctx, settings_idx, do_model=True):
                 if meps != mexact and not sep_bad:
                     sep_bad = "case %s: expand_eps differs from expand_exact" % json.dumps(c)
             ctx.count()
+            # GeneratorSite.__init__ (position part)
+            if "gimpl" in r:
+                gd = compare_generator(r["gimpl"], mgen)
+                if mgen is not None and mgen["D"] != c["D"]:
+                    g_moved += 1
+                if gd:
+                    if c["si"] not in ops_cache:
+                        ops_cache[c["si"]] = co.exact_ops(SpaceGroupList[c["si"]])
+                    if second_stage_fragile(ops_cache[c["si"]], c, mgen):
+                        g_skipped += 1
+                    else:
+                        g_disagree += 1
+                        if not g_first:
+                            g_first = "setting index %d, case %s: %s" % (c["si"], json.dumps(c), gd)
+                            ctx.log("GeneratorSite model/implementation difference:", g_first[:400])
+                else:
+                    g_agree += 1
+                ctx.count()
+        # ExpandAsymmetricUnit: every member against the model GeneratorSite, cheap calls against expand_asym itself
+        for gid, (si, base, g) in enumerate(eau_calls):
+            mem = [base + k for k in g["members"]]
+            for j, cidm in enumerate(mem):
+                if results[cidm]["fragile"] or cidm not in model:
+                    continue
+                mgen = model[cidm][2]
+                d = compare_asym_member(g["mult"][j], g["pos"][j], mgen)
+                if d:
+                    if si not in ops_cache:
+                        ops_cache[si] = co.exact_ops(SpaceGroupList[si])
+                    if second_stage_fragile(ops_cache[si], cases[cidm], mgen):
+                        continue
+                if d and not a_first:
+                    a_first = "setting index %d, case %s: %s" % (si, json.dumps(cases[cidm]), d)
+                # expandedUijs of the call = eqUij of the member's own GeneratorSite (whose model is compared separately)
+                gi = results[cidm].get("gimpl") or {}
+                if not d and g.get("U") and g["U"][j] is not None and "eqU" in gi:
+                    if len(g["U"][j]) != len(gi["eqU"]) or any(abs(p - q) > 1e-12 for a_, b_ in zip(g["U"][j], gi["eqU"]) for p, q in zip(a_, b_)):
+                        d = "expandedUijs differ from the eqUij of the site's GeneratorSite"
+                        if not a_first:
+                            a_first = "setting index %d, case %s: %s" % (si, json.dumps(cases[cidm]), d)
+                a_disagree += 1 if d else 0
+                a_agree += 0 if d else 1
+            if gid in gmodel:
+                a_groups_eval += 1
+                ga = gmodel[gid]
+                ok_g = ga is not None and len(ga) == len(mem)
+                if ok_g:
+                    for j, cidm in enumerate(mem):
+                        mg = model[cidm][2] if cidm in model else None
+                        if mg is None or ga[j]["mult"] != mg["mult"] or ga[j]["D"] != mg["D"] or ga[j]["pos"] != mg["pos"]:
+                            ok_g = False
+                if not ok_g and not a_first:
+                    a_first = "setting index %d: expand_asym on %s differs from the per-site generator model" % (si, json.dumps(groups[gid][3]))
+                    a_disagree += 1
+        for cid, mu in umodel.items():
+            r = results[cid]
+            if not r["gimpl"].get("sym", True):
+                d = "implementation returned a non-symmetric tensor"
+            else:
+                d = compare_tensors(r["gimpl"], mu)
+            if d and cid in model and model[cid][2] is not None and compare_generator(r["gimpl"], model[cid][2]):
+                continue      # positions already differ (reported or skipped above)
+            if d:
+                u_disagree += 1
+                if not u_first:
+                    u_first = "setting index %d, case %s: %s" % (cases[cid]["si"], json.dumps(cases[cid]), d)
+            else:
+                u_agree += 1
+            ctx.count()
         ctx.obligation("correspondence:expand_eps-vs-expandPosition", disagree == 0, first_diff)
         ctx.obligation("model:expand_eps=expand_exact-on-separated-cases", not sep_bad, sep_bad)
+        ctx.obligation("correspondence:generator_site-vs-GeneratorSite", g_disagree == 0, g_first)
+        ctx.obligation("correspondence:expand_asym-vs-ExpandAsymmetricUnit", a_disagree == 0, a_first)
+        ctx.obligation("correspondence:eq_uijs-vs-GeneratorSite.eqUij", u_disagree == 0, u_first)
     for cid in list(results)[:200]:
         r = results[cid]
         if r["case"]["kind"] in ("inside", "offset+shift", "outside") and r["impl"]:
@@ -369,6 +628,11 @@ def process(ctx, settings_idx, do_model=True):
         "finder_judgements": njudged, "finder_not_judged": skipped, "expand_asymmetric_unit_sites": neau,
         "model_agree": agree, "model_disagree": disagree, "model_skipped_margin_below_1e-9": skipped_fragile,
         "separated_cases_eps_equals_exact": sep_checked,
+        "generator_model_agree": g_agree, "generator_model_disagree": g_disagree, "generator_model_skipped_margin": g_skipped,
+        "generator_model_sites_moved_by_snap": g_moved,
+        "asym_unit_members_agree": a_agree, "asym_unit_disagree": a_disagree, "asym_unit_calls_evaluated_in_coq": a_groups_eval,
+        "tensor_cases_agree": u_agree, "tensor_cases_disagree": u_disagree,
+        "snap_theorem_hypotheses_hold": hyp_yes, "snap_theorem_hypotheses_fail": hyp_no,
     })
     return results
 
@@ -379,12 +643,17 @@ def run(ctx):
                     "float arithmetic of numpy is compared with the exact model to 1e-9, not modelled"]
     ctx.assumptions += ["a site is a rational triple; the model works on the grid k/D with 12 | D (every rational site has this form)",
                         "tolerances in the model are the exact rational values of the doubles 1.0e-5 and (1.0e-5+1.0)-1.0",
-                        "GeneratorSite/ExpandAsymmetricUnit (snap step) are checked by the exact oracle only, not modelled in Coq"]
+                        "the adjusted tensor self.Uij is taken from the implementation (its construction is C06's subject); eqUij = R U R^T is modelled",
+                        "the null-space / parameter / formula parts of GeneratorSite belong to C05/C06 and are not modelled here"]
     from vlib.props import c03
     with core.BuildLock():
         ok = ctx.regen("sgtables", sgtables.generate)
+        okU = False
         if ok:
-            ok, _ = ctx.coq(TARGETS, theorems_in={"Props/C02"})
+            ctx.coq(TARGETS, theorems_in=THEOREMS_IN)
+            # the position part and the tensor part are built (and can fail) independently
+            ok = os.path.exists(os.path.join(core.COQ, "Props", "C02.vo"))
+            okU = ok and os.path.exists(os.path.join(core.COQ, "Props", "C02_Uij.vo"))
         c03.tables_match_live(ctx)
         from diffpy.structure.spacegroups import SpaceGroupList
         # corpus first
@@ -393,7 +662,7 @@ def run(ctx):
             for f in sorted(os.listdir(cdir)):
                 if f.endswith(".json"):
                     replay_case(ctx, json.load(open(os.path.join(cdir, f))), model=ok)
-        process(ctx, list(range(len(SpaceGroupList))), do_model=ok)
+        process(ctx, list(range(len(SpaceGroupList))), do_model=ok, do_uij=okU)
 
 
 def replay_case(ctx, case, model=True):
@@ -406,9 +675,13 @@ def replay_case(ctx, case, model=True):
         report(ctx, seen, case, clause, api, msg, sg.short_name)
     ctx.count(("corpus", case["si"], case["kind"]))
     if model and not r["fragile"]:
-        out, err = run_model(ctx, {0: case}, {case["si"]: len(ops)})
+        out, _, _, err = run_model(ctx, {0: case}, {case["si"]: len(ops)})
         if 0 in out:
             d = compare_model(case, r["impl"], out[0][0])
+            if not d and "gimpl" in r:
+                d = compare_generator(r["gimpl"], out[0][2])
+                if d and second_stage_fragile(ops, case, out[0][2]):
+                    d = ""
             ctx.obligation("correspondence:corpus-case", not d, d)
     return r
 
@@ -421,7 +694,8 @@ def replay(ctx, rep):
     with core.BuildLock():
         ok = ctx.regen("sgtables", sgtables.generate)
         if ok:
-            ok, _ = ctx.coq(TARGETS, theorems_in={"Props/C02"})
+            ctx.coq(TARGETS, theorems_in=THEOREMS_IN)
+            ok = os.path.exists(os.path.join(core.COQ, "Props", "C02.vo"))
         r = replay_case(ctx, case, model=ok)
     ctx.log("replayed: impl multiplicity %s, exact orbit size %d, problems: %s" %
             (r["impl"] and r["impl"]["mult"], r["nclusters"], r["bad"] or "none"))
